@@ -143,6 +143,7 @@ fn precision(sc: &Value, rec: &mut Map<String, Value>) {
             precision_override: None,
             overheads: [0; 4],
             quantum,
+            overhead_measure_cost: 0,
         }),
         wall_timeout: Duration::from_secs(u(sc, "wall_timeout", 20)),
         stream: None,
